@@ -80,6 +80,32 @@ def run(ctx, rep):
     check_schedule_reads(ctx, rep)
     # ---- M4 / M5
     _m45(ctx, rep)
+    # the dimension handed to the coefficient builders is the dimension of the whole (composite) system
+    for cq_ in TOMO:
+        c_ = ix.cls(cq_)
+        init_ = c_.methods.get("__init__")
+        if init_ is None:
+            continue
+        for n_ in own_nodes(init_.node):
+            if isinstance(n_, ast.Call) and unparse(n_.func) == "self._set_coeffs":
+                tgt_ = c_.methods.get("_set_coeffs")
+                if tgt_ is None or "dim" not in tgt_.params:
+                    continue
+                from ..resolve import bind_call as _bind
+                b_, _e = _bind(n_, tgt_, True)
+                d_ = b_.get("dim")
+                if d_ is None:
+                    continue
+                from ..astutil import deep_inline as _dinl
+                dd = _dinl(init_, d_)
+                con_ = "%s: dimension handed to _set_coeffs" % c_.name
+                if isinstance(dd, ast.Attribute) and dd.attr in ("dim", "_dim"):
+                    rep.holds("M5", init_, con_, "%s" % unparse(d_), node=n_)
+                elif isinstance(dd, ast.Call) and "dim_e_sys" in unparse(dd.func):
+                    rep.violation("M5", init_, con_, "`%s` is the dimension of ONE elemental system; the implied coefficient d^-1/2 needs the dimension of the "
+                                                    "whole composite system (they agree for a single system only)" % unparse(d_), node=n_)
+                else:
+                    rep.undecided("M5", init_, con_, "dimension argument %s not recognised" % unparse(dd)[:60])
     rep.rule("M6", "measurement-process tomography: the model is the process model repeated on the block diagonal, once per explicitly "
                    "parametrised outcome (m - 1 copies with the constraint built in, m otherwise)", floor=2)
     _m6(ctx, rep)
